@@ -422,6 +422,13 @@ def obligations(tier: str):
             obs.append(Obligation("%s.%s" % (sym, how), make_copy_harness(sym, how),
                                   bounds="class %s; %s of any invariant state with values inside limits" % (sym, how),
                                   key=_key, functions=funcs, expect_reach=[how + ":succeeds"]))
+    if tier == "quick":
+        # a class with a parameter that is fixed by default (Warburg's n): copies and the fixed-flag setter
+        for how in ("copy", "deepcopy"):
+            obs.append(Obligation("W.%s" % how, make_copy_harness("W", how), bounds="class W (n fixed by default); %s of any invariant state with values inside limits" % how,
+                                  key=_key, functions=funcs, expect_reach=[how + ":succeeds"]))
+        obs.append(Obligation("W.set_fixed.1", make_setter_harness("W", "set_fixed", 1, value_kinds), bounds="class W; one call of set_fixed", key=_key, functions=funcs,
+                              expect_reach=["set_fixed:accepted iff valid"]))
     for sym in (("R", "C") if tier == "quick" else ("R", "C", "Q")):
         L = 2 if tier == "quick" else 3
         obs.append(Obligation("%s.history.%d" % (sym, L), make_history_harness(sym, L),
